@@ -11,12 +11,18 @@ Rec == ndJsonDeserialize(IOEnv.TRACE)
 VARIABLE tl
 
 PairSet(q) == {<<q[i][1], q[i][2]>> : i \in 1..Len(q)}
+\* a round trip was performed: both conversions exited 0 and both ends parse
+RtApplies(e) == e.rt_dir # "" /\ e.rt_back_exit = 0 /\ e.rt_in # "" /\ e.rt_back # ""
+RtDiag(e) == IF RtApplies(e) /\ <<e.kind, e.rt_dir>> \notin RoundTripExact /\ e.rt_in # e.rt_back
+             THEN PrintT(<<"DRIFT", tl, "rt-differs " \o e.kind \o " " \o e.rt_dir>>)
+             ELSE TRUE
 RunOf(e) == [fam |-> e.fam, cmd |-> e.cmd, input |-> e.input, lib |-> e.lib, libval |-> e.libval,
              missing |-> e.missing, skip |-> e.skip]
 OutcomeOf(e) == [exit |-> e.exit, says_fail |-> e.says_fail, want |-> PairSet(e.want), got |-> PairSet(e.got),
                  outs_ok |-> /\ (e.need_outs => Len(e.outs) > 0)
                              /\ \A i \in 1..Len(e.outs) : e.outs[i] = "ok",
-                 view_ok |-> ToSet(e.view) = ToSet(e.libview)]
+                 view_ok |-> ToSet(e.view) = ToSet(e.libview),
+                 rt_ok |-> ~(RtApplies(e) /\ <<e.kind, e.rt_dir>> \in RoundTripExact /\ e.rt_in # e.rt_back)]
 
 WellFormed(e) == /\ <<e.fam, e.cmd>> \in AllCmds /\ e.input \in Inputs /\ e.lib \in LibVerdicts
                  /\ e.libval \in {"ok", "fail", "n/a"}
@@ -24,6 +30,7 @@ WellFormed(e) == /\ <<e.fam, e.cmd>> \in AllCmds /\ e.input \in Inputs /\ e.lib 
 TInit == tl = 1 /\ Init /\ vdisk = EmptyMap
 Step(e) == CASE e.ev = "Reset" -> TRUE
              [] e.ev = "Run"   -> /\ Assert(WellFormed(e), <<"malformed Run event", e>>)
+                                  /\ RtDiag(e)
                                   /\ IF Truthful(RunOf(e), OutcomeOf(e)) THEN TRUE
                                      ELSE PrintT(<<"BAD", tl, Broken(RunOf(e), OutcomeOf(e))>>)
              [] OTHER -> Assert(FALSE, <<"unknown event", e>>)
